@@ -86,7 +86,7 @@ fn main() {
             let prop = props::by_id(&id).unwrap_or_else(|| usage());
             let seed = arg(&args, "--seed").and_then(|s| s.parse().ok()).unwrap_or(1);
             let tier = if arg(&args, "--tier").as_deref() == Some("thorough") { Tier::Thorough } else { Tier::Quick };
-            let case = prop.gen(seed, tier);
+            let case = runner::gen_case(prop.as_ref(), seed, tier);
             println!("{}", serde_json::to_string_pretty(&serde_json::json!({"property": id, "violation": {"class": ""}, "case": case})).unwrap());
         }
         "replay" => {
